@@ -74,7 +74,7 @@ package keeper
 //@ func (Keeper) ShardRelease(ctx, sp, shard) (err)
 //@   requires [C07.release.to] shard != nil ==> str(sp) == shard.Sp
 //@   requires has(Pledge, str(sp)) ==> Pledge[str(sp)].Creator == str(sp)
-//@   requires shard != nil && has(PledgeDebt, shard.Sp) ==> PledgeDebt[shard.Sp].Sp == shard.Sp && PledgeDebt[shard.Sp].Debt.Amount >= 0
+//@   requires has(PledgeDebt, str(sp)) ==> PledgeDebt[str(sp)].Sp == str(sp) && PledgeDebt[str(sp)].Debt.Amount >= 0
 //@   requires shard != nil ==> shard.Pledge.Amount >= 0
 //@   modifies Pledge[str(sp)], PledgeDebt[str(sp)], Bank
 //@   ensures [C07.release.amount] err == nil && shard != nil && sp != moduleAddr("node") ==>
@@ -92,6 +92,7 @@ package keeper
 //@   ensures [C14.release.nil] err == nil && shard == nil ==> Pledge[str(sp)].UsedStorage == old(Pledge[str(sp)].UsedStorage)
 //@       && Pledge[str(sp)].TotalShardPledged == old(Pledge[str(sp)].TotalShardPledged) && (has(PledgeDebt, str(sp)) <==> old(has(PledgeDebt, str(sp))))
 //@       && PledgeDebt[str(sp)] == old(PledgeDebt[str(sp)]) && (forall a addr, d string :: bal(a, d) == old(bal(a, d)))
+//@   ensures [C07.release.debtwf] has(PledgeDebt, str(sp)) ==> (shard != nil || old(has(PledgeDebt, str(sp)))) && PledgeDebt[str(sp)].Sp == str(sp) && PledgeDebt[str(sp)].Debt.Amount >= 0
 //@   ensures [C08.release.settles] shard == nil && old(has(Pledge, str(sp))) && old(has(Pool)) ==> err == nil
 //@   ensures [C07.release.errnil] err != nil && shard == nil ==> Pledge[str(sp)] == old(Pledge[str(sp)]) && (has(Pledge, str(sp)) <==> old(has(Pledge, str(sp))))
 //@       && (has(PledgeDebt, str(sp)) <==> old(has(PledgeDebt, str(sp)))) && PledgeDebt[str(sp)] == old(PledgeDebt[str(sp)]) && (forall a addr, d string :: bal(a, d) == old(bal(a, d)))
